@@ -55,13 +55,20 @@ def drv_bin():
     return os.path.join(LEAN, ".lake", "build", "bin", "arpdrv")
 
 
+MAX_BAD_PER_CHUNK = 6   # after that many aborts/hangs the rest of the chunk is not executed (answer `SKIP`)
+
+
 def _careful(binary, lines, per_line_timeout, env=None):
     """Feed lines one at a time; attribute ABORT / HANG to single lines; restart after them."""
     out = []
     i = 0
     n = len(lines)
+    bad = 0
     e = dict(ENV if env is None else env, ARPH_FLUSH="1")
     while i < n:
+        if bad >= MAX_BAD_PER_CHUNK:
+            out.extend(["SKIP"] * (n - i))
+            break
         p = subprocess.Popen([binary], stdin=subprocess.PIPE, stdout=subprocess.PIPE, env=e, bufsize=0)
         dead = False
         while i < n and not dead:
@@ -70,6 +77,7 @@ def _careful(binary, lines, per_line_timeout, env=None):
                 p.stdin.flush()
             except (BrokenPipeError, OSError):
                 out.append("ABORT")
+                bad += 1
                 i += 1
                 dead = True
                 break
@@ -100,6 +108,7 @@ def _careful(binary, lines, per_line_timeout, env=None):
                     out.append("HANG")
                 else:
                     out.append("ABORT")
+                bad += 1
                 i += 1
                 dead = True
         try:
